@@ -4,7 +4,7 @@ from __future__ import annotations
 import ast
 from dataclasses import replace
 
-from .av import (AV, BOTTOM, TOP, NOCONST, EMPTYQ, t, join, join_all, elem_of, loc_ext, all_deps)
+from .av import (PIECEWISE, AV, BOTTOM, TOP, NOCONST, EMPTYQ, t, join, join_all, elem_of, loc_ext, all_deps)
 from .index import ClassInfo, FuncInfo, ConstDef, ModuleRef, ExtRef, NotConstant, ConstFolder
 from .state import Event, State
 
@@ -193,6 +193,7 @@ class ExprMixin:
     def _comp(self, n, elt_nodes, kind, st, frame):
         sub = st.copy()
         extra = set()
+        filt = set()
         for g in n.generators:
             it = self.eval(g.iter, sub, frame)
             e = self.iterate(it, g.iter, sub, frame)
@@ -201,17 +202,24 @@ class ExprMixin:
             for cond in g.ifs:
                 c = self.eval(cond, sub, frame)
                 extra |= c.deps
+                filt |= c.deps
                 tf, _ = self.cond_facts(cond)
                 sub.facts = sub.facts | tf
                 self.narrow(cond, True, sub, frame)
         sub.ctrl = sub.ctrl | frozenset(extra)
         vals = [self.eval(e, sub, frame) for e in elt_nodes]
-        vals = [v.with_deps(extra) for v in vals]
+        # which elements there are depends on the iterables and filters (recorded on the container, `deps=extra`); what an
+        # element *is* does not: `((f, s) for f in finals for s in starts)` yields pairs whose first item is a final state
+        # and nothing else.  Only the filters taint the elements themselves (an element is there because it passed them).
+        if filt:
+            vals = [v.with_deps(frozenset(filt)) for v in vals]
         alias = frozenset({self.fresh_loc(frame, n)})
         if kind == "dict":
             return AV(types=frozenset({"dict"}), alias=alias, key=replace(vals[0], const=NOCONST),
                       elem=replace(vals[1], const=NOCONST), deps=frozenset(extra))
-        return AV(types=frozenset({kind}), alias=alias, elem=replace(vals[0], const=NOCONST), deps=frozenset(extra))
+        quals = frozenset({PIECEWISE}) if isinstance(elt_nodes[0], ast.Tuple) and vals[0].items is not None else frozenset()
+        return AV(types=frozenset({kind}), alias=alias, elem=replace(vals[0], const=NOCONST), deps=frozenset(extra),
+                  quals=quals)
 
     def x_ListComp(self, n, st, frame):
         return self._comp(n, [n.elt], "list", st, frame)
@@ -414,6 +422,7 @@ class ExprMixin:
     def x_Yield(self, n, st, frame):
         v = self.eval(n.value, st, frame) if n.value is not None else t("None")
         frame.yields.append(v.with_deps(st.ctrl | st.xctrl))
+        self.ev(frame, st, "yield", n, value=v)          # with the branch facts at the yield
         return TOP
 
     def x_YieldFrom(self, n, st, frame):
@@ -430,7 +439,7 @@ class ExprMixin:
         if isinstance(n.slice, ast.Slice):
             parts = [self.eval(x, st, frame) for x in (n.slice.lower, n.slice.upper, n.slice.step) if x is not None]
             deps = base.deps.union(*[p.deps for p in parts]) if parts else base.deps
-            self.ev(frame, st, "slice", n, recv=base, args=tuple(parts))
+            slice_ev = self.ev(frame, st, "slice", n, recv=base, args=tuple(parts))
             ty = base.types
             items = None
             if base.items is not None and all(p.has_const() for p in parts):
@@ -451,8 +460,10 @@ class ExprMixin:
                 if step is None or (step.has_const() and step.const in (1, -1)):
                     quals = frozenset({("PERM_OF", l) for l in base.alias} |
                                       {q for q in base.quals if isinstance(q, tuple) and q[0] == "PERM_OF"})
-            return AV(types=ty, alias=frozenset({self.fresh_loc(frame, n)}), elem=el, items=items, deps=deps,
-                      quals=quals)
+            out = AV(types=ty, alias=frozenset({self.fresh_loc(frame, n)}), elem=el, items=items, deps=deps,
+                     quals=quals)
+            slice_ev.result = out
+            return out
         idx = self.eval(n.slice, st, frame)
         res = self.subscript_value(base, idx, n, st, frame)
         self.ev(frame, st, "subscript", n, recv=base, args=(idx,), result=res)
